@@ -215,10 +215,14 @@ func TestVF_C11_Proxy(t *testing.T) {
 					t.Fatalf("%s is advertised by the proxy but the request got no reply (connection stayed open)\nshape=%s frame=%x", pr.Name(), pr.Shape, c11Clip(pr.Frame))
 				}
 			case "closed":
-				if pr.Advertised {
+				if pr.Advertised && !pr.Acks0 {
 					t.Fatalf("%s is advertised by the proxy but the connection was closed without a reply (%v)\nshape=%s frame=%x", pr.Name(), out.Err, pr.Shape, c11Clip(pr.Frame))
 				}
 			case "reply", "reply-then-closed":
+				if pr.Acks0 {
+					t.Fatalf("%s with acks=0 via proxy got a reply frame (%d bytes): the client reads none, so the next request on this connection is answered with this stale frame\nshape=%s request=%x reply=%x",
+						pr.Name(), len(out.Reply), pr.Shape, c11Clip(pr.Frame), c11Clip(out.Reply))
+				}
 				msg, note := vfc11kit.JudgeReply(pr, tb, out.Reply)
 				if msg != "" {
 					t.Fatalf("%s (%s) via proxy: reply is not decodable at the request version: %s\nshape=%s\nrequest=%x\nreply=%x", pr.Name(), pr.Class, msg, pr.Shape, c11Clip(pr.Frame), c11Clip(out.Reply))
